@@ -281,8 +281,9 @@ def main():
         rc = 1
         for p in viol_paths[:5]:
             lines.append(f"VIOLATION property={prop} replay={p}")
-        v0 = m["violations"][0]
-        lines.append("first counterexample: " + json.dumps({k: v0.get(k) for k in ("check", "input", "choices", "observed", "expected", "explanation")})[:3000])
+        if m["violations"]:
+            v0 = m["violations"][0]
+            lines.append("first counterexample: " + json.dumps({k: v0.get(k) for k in ("check", "input", "choices", "observed", "expected", "explanation")})[:3000])
 
     wall = time.time() - t0
     level = cfg.get("level", "model_checking")
